@@ -14,7 +14,7 @@ import (
 
 func init() {
 	modes["C09"] = func(res *lp.Result) { runInflight(res, "C09"); runInflightConcurrent(res); runInflightSendVsDeliver(res); runInflightConnection(res); runInflightExplicitConnection(res) }
-	modes["C10"] = func(res *lp.Result) { runInflight(res, "C10"); runRoutingConnection(res); runRoutingEventFlood(res); runRoutingRawPeer(res) }
+	modes["C10"] = func(res *lp.Result) { runInflight(res, "C10"); runRoutingConnection(res); runRoutingEventFlood(res); runRoutingTimedPages(res); runRoutingRawPeer(res) }
 }
 
 type infOp struct {
@@ -46,8 +46,20 @@ func tagOf(f *frame.Frame) int {
 }
 
 // runHistory executes one history on the real handler, returns the canonical outputs and evaluates the oracles.
+var handlerNeverCreated = map[int]bool{}
+
 func runHistory(n, pending int, ops []infOp, res *lp.Result, prop string) []string {
-	h := client.VerifNewHandler(n, pending, time.Hour)
+	// (creating the handler fills the pool with the ids 1..N: it must come back, also for the largest N a 16-bit id allows)
+	var h *client.VerifHandler
+	if handlerNeverCreated[n] {
+		return nil
+	}
+	if !within(10*time.Second, func() { h = client.VerifNewHandler(n, pending, time.Hour) }) || h == nil {
+		handlerNeverCreated[n] = true
+		res.Add(lp.Finding{Kind: "violation", What: fmt.Sprintf("no request can be sent with a limit of N=%d: the in-flight handler is not created within 10 s", n),
+			Input: fmt.Sprintf("N=%d P=%d: create the handler", n, pending)})
+		return nil
+	}
 	defer func() { h.Close(); h.CancelContext() }()
 	var outs []string
 	var handles []client.InFlightRequest
@@ -223,6 +235,9 @@ func runInflight(res *lp.Result, prop string) {
 	var lines, expect []string
 	runOne := func(n, p int, ops []infOp) {
 		outs := runHistory(n, p, ops, res, prop)
+		if outs == nil {
+			return // the handler could not even be created (reported)
+		}
 		lines = append(lines, fmt.Sprintf("inf new %d %d", n, p))
 		expect = append(expect, "ok")
 		nt := false
@@ -391,4 +406,22 @@ func minInt(a, b int) int {
 		return a
 	}
 	return b
+}
+
+// "a multi-page response delivers all its pages in arrival order to that one request and completes it on the last page" — also
+// when the pages are spread over more than one read timeout (each page restarts the clock): the scripted timed histories of C16
+// (pages at gaps shorter than the timeout, a page early in the timeout followed by one after the old deadline), each in a child
+// process against the timed model.
+func runRoutingTimedPages(res *lp.Result) {
+	hist := c16Histories()
+	var idx []int
+	for i, h := range hist {
+		if i < 10 && i < len(hist) {
+			_ = h
+			idx = append(idx, i)
+		}
+	}
+	runScenariosAt(res, "C16LIFE", idx, func(i int) string {
+		return fmt.Sprintf("timeout=%d units of 50ms; history: %s", hist[i].t, strings.TrimPrefix(lifeLine(hist[i]), fmt.Sprintf("life %d ", hist[i].t)))
+	})
 }
